@@ -22,6 +22,7 @@ import OapiVerif.Model.Comment
 import OapiVerif.Model.RefPath
 import OapiVerif.Model.Form
 import OapiVerif.Model.TypeDedup
+import OapiVerif.Model.Bodies
 /-!
 Line-protocol driver: one JSON object per line in, one per line out.
 `{"fn": <name>, ...}` ↦ `{"ok": <result>}` or `{"err": "bad-op"}` (never a default).
@@ -373,6 +374,22 @@ def genTypesD (j : Json) : Except String Json := do
     | .ok r => Json.mkObj [("ok", Json.arr (r.map fun d => Json.num d.body).toArray)]
     | .error e => Json.mkObj [("error", Json.arr (e.map fun (c : Nat) => Json.num (JsonNumber.fromNat c)).toArray)])
 
+/-- `GenerateBodyDefinitions`: media types as byte arrays with, for each, what `IsMediaTypeJson` and
+`mediaTypeToCamelCase` give (computed by Go: the model's `Env` is this table); result = one row per definition. -/
+def bodyDefsD (j : Json) : Except String Json := do
+  let cts ← j.getObjValAs? (Array (Array Nat)) "cts"
+  let isj ← j.getObjValAs? (Array Bool) "json"
+  let cam ← j.getObjValAs? (Array (Array Nat)) "camel"
+  let op ← j.getObjValAs? (Array Nat) "op"
+  let tbl : List (List Nat × Bool × List Nat) :=
+    (List.range cts.size).map fun i => (cts[i]!.toList, isj[i]!, cam[i]!.toList)
+  let E : Bodies.Env := ⟨fun c => ((tbl.find? (·.1 = c)).map (·.2.1)).getD false, fun c => ((tbl.find? (·.1 = c)).map (·.2.2)).getD []⟩
+  let nums (l : List Nat) : Json := Json.arr (l.map fun (c : Nat) => Json.num (JsonNumber.fromNat c)).toArray
+  let out := Bodies.bodyDefs E (cts.toList.map (·.toList))
+  pure (Json.arr (out.map fun b => Json.mkObj [("ct", nums b.contentType), ("tag", nums b.tag), ("default", Json.bool b.dflt),
+    ("supported", Json.bool b.supported), ("client", Json.bool (b.supportedByClient E)), ("fixed", Json.bool b.fixedContentType),
+    ("suffix", nums b.suffix), ("type", nums (b.typeName op.toList))]).toArray)
+
 /-- `constructImportMapping`: [[document bytes, package path bytes]] ↦ [[document, name, path]] -/
 def importMapD (j : Json) : Except String Json := do
   let a ← j.getObjValAs? (Array (Array (Array Nat))) "mapping"
@@ -658,6 +675,7 @@ def dispatch (fn : String) (j : Json) : Except String Json :=
   | "combineParams" => combineParamsD j
   | "genTypes" => genTypesD j
   | "importMap" => importMapD j
+  | "bodyDefs" => bodyDefsD j
   | "schemaKeys" => schemaKeysD j
   | "comment" => commentD j
   | "commentSpaces" => commentSpacesD j
